@@ -94,15 +94,17 @@ func plan(c *vf.Ctx) []task {
 		part, cfg string
 		n, batch  int
 	}
+	// quick: 22 000 raw block round trips + 2 000 series chunks (about 25 000 more blocks behind column
+	// headers), 300 files, 3 000 row batches, 1 000 records, 200 WAL logs
 	items := []item{
-		{"block", baseCfg, 22000, 2200},
-		{"block", "s=snappy,m=1,c=0", 4000, 2000},
-		{"block", "s=lz4,m=0,c=0", 2000, 2000},
-		{"block", "s=zstd,m=0,c=0", 2000, 2000},
-		{"chunk", baseCfg, 1800, 300},
-		{"chunk", "s=snappy,m=1,c=0", 500, 250},
-		{"chunk", "s=lz4,m=0,c=0", 350, 350},
-		{"chunk", "s=zstd,m=0,c=0", 350, 350},
+		{"block", baseCfg, 16000, 2000},
+		{"block", "s=snappy,m=1,c=0", 3000, 1500},
+		{"block", "s=lz4,m=0,c=0", 1500, 1500},
+		{"block", "s=zstd,m=0,c=0", 1500, 1500},
+		{"chunk", baseCfg, 1200, 300},
+		{"chunk", "s=snappy,m=1,c=0", 400, 200},
+		{"chunk", "s=lz4,m=0,c=0", 200, 200},
+		{"chunk", "s=zstd,m=0,c=0", 200, 200},
 		{"file", baseCfg, 140, 14},
 		{"file", "s=snappy,m=1,c=0", 32, 16},
 		{"file", "s=lz4,m=0,c=0", 16, 16},
